@@ -345,7 +345,7 @@ def reply_sweep(ctx, model, nvec, profile, stats):
                                 ctx.violation("correspondence:C06.reply", case, found_input=False)
 
 
-def traffic_sweep(ctx, model, nvec, profile, stats):
+def traffic_sweep(ctx, model, nvec, profile, stats, judge_answers=False):
     """request that registers a callback; then traffic that is NOT its reply -- a server ping (type get) carrying the
     very id of the pending request, a get/set iq with that id, a reply for another id, a message -- then the reply:
     still exactly one entity of the documented class (theorem C06_reply_once_after_traffic)"""
@@ -399,6 +399,18 @@ def traffic_sweep(ctx, model, nvec, profile, stats):
                             if rexc is not None or exc is not None or any(o[2] is not None for o in mobs):
                                 case["exception"] = repr(rexc or exc or [o[2] for o in mobs])
                                 ctx.violation("oracle:no-error", case)
+                            if tk.startswith("ping"):
+                                # C07: a server ping is answered with exactly one pong carrying its id, whatever
+                                # request happens to be pending under that id
+                                kping = K.by_name()["recv.iq.ping"]
+                                for m, o in zip(mids, mobs):
+                                    orc = oracle_recv(kping, flags, {"ups": o[0], "downs": o[1], "exc": o[2], "node": m})
+                                    orc = [x for x in orc if x[2] is None and (judge_answers or x[0] != "oracle:answers")]
+                                    if orc:
+                                        case["ping_observed_down"] = [R.show(x) for x in o[1]]
+                                        case["problem"] = "; ".join(x[1] for x in orc)
+                                        ctx.violation(orc[0][0], case)
+                                        break
                             if rtype == "result" or exp_cls is not None:
                                 if got != ([exp_cls] if exp_cls else []):
                                     ctx.violation("oracle:reply_once", case)
